@@ -296,7 +296,7 @@ def run(tier, seed, shard, nshards):
                 s.sample(dict(cpu=p.cpu, src=p.source()[:400]))
 
     try:
-        n = 700 if tier == "quick" else 6000
+        n = 1600 if tier == "quick" else 6000
         hyp_run(test, progs.structured_program(pools, cpus=mine, repeats=False), n, shard_seed(seed, shard, "c18"), s)
     finally:
         ck.close()
